@@ -149,6 +149,25 @@ def decode_bound(raw):
     if not (isinstance(p, dict) and "t" in p and "v" in p):
         return ("legacy", raw)
     t, v = p["t"], p["v"]
+    try:
+        return _decode_tagged(t, v)
+    except Exception:
+        # an encoding this reader does not know: not a violation in itself (the format is internal); callers fall back
+        # on what the library's own decoder makes of it
+        return Undecoded(raw)
+
+
+class Undecoded:
+    def __init__(self, raw):
+        self.raw = raw
+
+    def __repr__(self):
+        return f"Undecoded({self.raw!r})"
+
+
+def _decode_tagged(t, v):
+    import datetime as dt
+
     if t == "bool":
         return bool(v)
     if t == "int":
